@@ -26,6 +26,7 @@ type cfgSel struct {
 	tsbd    int
 	atoKind int // 0 none, 1 quarter segment, 2 segment-40ms, 3 1.5 segments
 	stopRel int64 // stop_ at AST + stopRel seconds (0 = none)
+	periods int   // periods_<n> (0 = single period)
 }
 
 func atoMS(kind int, segMS int64) int64 {
@@ -38,6 +39,15 @@ func atoMS(kind int, segMS int64) int64 {
 		return segMS + segMS/2
 	}
 	return 0
+}
+
+func uniform(rt *project.RepTruth) bool {
+	for _, d := range rt.Dur {
+		if d != rt.Dur[0] {
+			return false
+		}
+	}
+	return true
 }
 
 func max64(a, b int64) int64 {
@@ -101,7 +111,7 @@ func Main(args []string) error {
 					for _, tsbd := range []int{0, 1, 10, -1} {
 						for ak := 0; ak < 4; ak++ {
 							if (snr+int(ast)+tsbd+ak)%2 == 0 || mode == "time" { // half of the product per mode, all for $Time$
-								cfgs = append(cfgs, cfgSel{mode, snr, ast, tsbd, ak, 0})
+								cfgs = append(cfgs, cfgSel{mode, snr, ast, tsbd, ak, 0, 0})
 							}
 						}
 					}
@@ -110,16 +120,18 @@ func Main(args []string) error {
 		}
 	} else {
 		for i, mode := range modes {
-			cfgs = append(cfgs, cfgSel{mode, -1, 0, -1, 0, 0}, cfgSel{mode, -1, 1_699_999_000, 10, 1 + i%3, 0}, cfgSel{mode, 1, 1000, 1, 0, 0})
+			cfgs = append(cfgs, cfgSel{mode, -1, 0, -1, 0, 0, 0}, cfgSel{mode, -1, 1_699_999_000, 10, 1 + i%3, 0, 0}, cfgSel{mode, 1, 1000, 1, 0, 0, 0})
 		}
 		for j := 0; j < 2; j++ {
 			cfgs = append(cfgs, cfgSel{modes[rng.Intn(3)], []int{-1, 1, 5}[rng.Intn(3)], []int64{0, 1000, 1_699_999_000}[rng.Intn(3)],
-				[]int{0, 1, 10, -1, 7}[rng.Intn(5)], rng.Intn(4), 0})
+				[]int{0, 1, 10, -1, 7}[rng.Intn(5)], rng.Intn(4), 0, 0})
 		}
 	}
 	// C05.stop: a few scenarios with a configured stop time (static MPD afterwards)
 	for i, mode := range modes {
-		cfgs = append(cfgs, cfgSel{mode, -1, []int64{0, 1000, 1_699_999_000}[i], 10, 0, int64(13 + 4*i)})
+		cfgs = append(cfgs, cfgSel{mode, -1, []int64{0, 1000, 1_699_999_000}[i], 10, 0, int64(13 + 4*i), 0})
+		// multi-period + stop: the static MPD must not keep changing at later period boundaries
+		cfgs = append(cfgs, cfgSel{mode, -1, []int64{0, 0, 1_699_999_200}[i], -1, 0, int64(150 + 20*i), 60})
 	}
 	var jobs []job
 	samples := []any{}
@@ -160,6 +172,9 @@ func Main(args []string) error {
 				if rs.rt.Kind == "image" && cs.mode != "number" {
 					continue // thumbnails are always addressed by number
 				}
+				if cs.periods > 0 && (rs.rt.Kind != "video" || (3600/cs.periods*1000)%int(rs.rt.Dur[0]*1000/rs.rt.TS) != 0 || !uniform(rs.rt)) {
+					continue // multi-period only where the period duration is a multiple of a uniform segment duration
+				}
 				jobs = append(jobs, job{a, rs.rt, cs, rng.Int63(), rs.mpd})
 			}
 		}
@@ -182,11 +197,14 @@ func Main(args []string) error {
 		ato := atoMS(cs.atoKind, segMS)
 		c := tl.Cfg{Mode: cs.mode, SNR: cs.snr, AST: cs.ast, TSBD: cs.tsbd, AtoMS: ato}
 		stop := int64(-1)
+		if cs.periods > 0 {
+			c.Extra = append(c.Extra, fmt.Sprintf("periods_%d", cs.periods))
+		}
 		if cs.stopRel > 0 {
 			stop = cs.stopRel
-			c.Extra = []string{fmt.Sprintf("stop_%d", cs.ast+cs.stopRel)}
+			c.Extra = append(c.Extra, fmt.Sprintf("stop_%d", cs.ast+cs.stopRel))
 		}
-		emit(tl.HeaderE(idx, a, rt, c, tr.E{"stop": stop}))
+		emit(tl.HeaderE(idx, a, rt, c, tr.E{"stop": stop, "multi": cs.periods > 0}))
 		N := int64(rt.N)
 		BN := int64(brk.N)
 		loopMS := rt.L * 1000 / rt.TS
@@ -227,6 +245,14 @@ func Main(args []string) error {
 		if stop > 0 {
 			for _, d := range []int64{-1, 0, 1, 2, 999, 5000, 100_000} {
 				inst[stop*1000+d] = true
+			}
+			if cs.periods > 0 { // later period boundaries
+				pd := int64(3600 / cs.periods * 1000)
+				for k := int64(1); k <= 4; k++ {
+					b := (stop*1000/pd + k) * pd
+					inst[b-1], inst[b], inst[b+1] = true, true, true
+				}
+				inst[stop*1000+3_600_000] = true
 			}
 		}
 		var list []int64
@@ -318,7 +344,7 @@ func Main(args []string) error {
 			mu.Lock()
 			nmpd++
 			mu.Unlock()
-			if e["st"] != 200 || media == "" || *nofetch {
+			if e["st"] != 200 || media == "" || *nofetch || cs.periods > 0 {
 				continue
 			}
 			segURL := func(v int64) string {
